@@ -3123,6 +3123,7 @@ void SGXMLScanner::scanReset(const InputSource& src)
     // Reset some status flags
     fInException = false;
     fStandalone = false;
+    fXMLVersion = XMLReader::XMLV1_0;
     fErrorCount = 0;
     fHasNoDTD = true;
     fSeeXsi = false;
